@@ -5,6 +5,7 @@ import OV.Lemmas.C09Reshape
 import OV.Lemmas.C09Mat
 import OV.Lemmas.C09Flatten
 import OV.Lemmas.C09Rules
+import OV.Lemmas.C09ReshapeReshape
 /-!
 # C09 — shape-based simplifications hold for every runtime binding of symbolic dims
 
@@ -1051,5 +1052,205 @@ example : noOpFires .mul1 0 0 true = true := by decide
 example : noOpFires .sub0 0 0 true = false := by decide
 example : noOpFires .add0 1 1 true = false := by decide
 example : broadcast [] [1] = some [1] := by decide
+
+/-! ## concat evaluator: which operands may be dropped -/
+
+/-- `concat` evaluator, operand dropping (`has_zero_size`): an operand is dropped only when its annotation has the
+*static* value 0 **on the concat axis** (Python indexing, negative axis from the end; an out-of-range axis, a
+symbolic or unnamed dim, or a 0 on another axis never qualifies) — and then, for every binding and every tensor the
+annotation is truthful for, the operand's extent on that axis is 0, so it contributes nothing to the concatenation and
+the extent of the result on the concat axis is unchanged. -/
+theorem concat_drop_sound (s : Shape) (ax : Int) (h : hasZeroSize (some s) ax = true)
+    (σ : String → Nat) (l : List Int) (ha : Admits σ s l) : pyIndex l ax = some 0 := by
+  unfold hasZeroSize at h
+  simp only at h
+  split at h
+  · rename_i d hd
+    have hd0 : d = .known 0 := by simpa using h
+    subst hd0
+    obtain ⟨v, hv, hadm⟩ := admits_pyIndex ha ax hd
+    have : (0 : Int) = v := hadm
+    rw [hv, ← this]
+  · cases h
+
+/-- … and a 0 on any *other* axis does not make the operand droppable (the class of seeded change C09-10):
+`float[N,0] ++ float[M,0]` on axis 0 keeps both operands. -/
+theorem concat_keeps_offaxis_empty :
+    evalConcat [(some [.sym "N", .known 0], none), (some [.sym "M", .known 0], none)] (some 0) = .nothing ∧
+    hasZeroSize (some [.sym "N", .known 0]) 0 = false ∧ hasZeroSize (some [.sym "N", .known 0]) (-1) = true := by decide
+
+example : hasZeroSize (some [.sym "N", .known 0]) 1 = true := by decide
+example : hasZeroSize (some [.sym "N", .known 0]) 2 = false := by decide
+
+/-! ## reshape_reshape (`ReshapeReshape`, `_basic_rules.py`) -/
+
+/-- **`Reshape(Reshape(x, s₀), shape)` → `Reshape(x, new_shape)`**, all ranks, both `allowzero` values, every output
+annotation, every binding.  `inp` = shape of `x`, `mid` = shape of the inner Reshape's result (any list of non-negative
+dims with the same element count — all the inner Reshape can produce), `t` = the constant second target, `out` the
+annotation of the outer output.  Whenever `check` succeeds with (`tgt`, `allowzero'`) and the original outer Reshape
+accepts (`reshapeTarget mid t az = some res`, the ONNX rule with `0` = copy / `-1` = infer / `allowzero`) with `out`
+truthful for its result, the rewritten single Reshape accepts and returns the same shape — in particular a `0` in
+`shape` (copy the dim of the *intermediate* tensor) is never left to be read against `x`, a `-1` inferred from a zero
+element count stays well defined, and entries taken from the annotation are the run-time values. -/
+theorem reshape_reshape_sound (inp mid t tgt : List Int) (az : Int) (az' : Bool) (out : Option Shape)
+    (h : reshapeReshape (some t) out az = .ret (some (tgt, az')))
+    (σ : String → Nat) (res : List Int)
+    (hnn : ∀ d ∈ mid, 0 ≤ d) (hmid : prodInt mid = prodInt inp)
+    (ho : reshapeTarget mid t (az == 1) = some res)
+    (hout : ∀ o, out = some o → Admits σ o res) :
+    reshapeTarget inp tgt az' = some res := by
+  -- the original outer Reshape
+  rw [reshapeTarget_eq] at ho
+  split at ho
+  · cases ho
+  rename_i g1
+  split at ho
+  · cases ho
+  rename_i g2
+  split at ho
+  · cases ho
+  rename_i g3
+  have g2' : t.any (· < -1) = false := by simpa using g2
+  have g1' : cntNeg t ≤ 1 := by unfold cntNeg; omega
+  obtain ⟨t1, ht1, hinf⟩ := Option.bind_eq_some_iff.mp ho
+  obtain ⟨v, hres, hcase⟩ := inferNeg_nec hinf
+  rw [hmid] at hcase
+  -- the updated target
+  unfold reshapeReshape at h
+  simp only at h
+  -- a uniform description of `u`
+  have key : ∀ (E : Int → Int → Prop), PW2 E t t1 → ∀ u,
+      (match out with | some o => rrUpdate o t | none => Raised.ret t) = Raised.ret u →
+      PW2 (fun a u => (u = sub1 v a ∧ 0 < sub1 v a) ∨ ∃ x, E x a ∧ u = x) t1 u := by
+    intro E hE u hu
+    cases out with
+    | none => simp only at hu; cases hu; exact pw_flip _ E hE
+    | some o =>
+      simp only at hu
+      exact rrUpdate_pw (σ := σ) (sub1 v) E o t t1 u hu (hres ▸ hout o rfl) hE
+  split at h
+  · cases h
+  rename_i u hu
+  by_cases haz : az = 1
+  · -- allowzero = 1: nothing is copied, t1 = t
+    have ht : t1 = t := by simp [haz] at ht1; exact ht1.symm
+    subst ht
+    have hpw : PW2 (QK v) t1 u := PW2.mono (fun a b hh => by
+      rcases hh with hh | ⟨x, hx, hb⟩
+      · exact Or.inl hh
+      · exact Or.inr (hb.trans hx)) (key _ (PW2.refl_eq t1) u hu)
+    by_cases h0 : (0 : Int) ∈ u
+    · have hc0 : u.contains 0 = true := contains_of_mem h0
+      simp only [haz, hc0, decide_true, Bool.and_self, if_true] at h
+      simp only [Raised.ret.injEq, Option.some.injEq, Prod.mk.injEq] at h
+      obtain ⟨e1, e2⟩ := h
+      subst e1 e2
+      rcases pw_qk_choice v hpw g1' with hu' | ⟨hu', hv, hm, _⟩
+      · rw [hu']
+        rw [reshapeTarget_eq, if_neg g1, if_neg g2]
+        have g3' : ¬ ((true && t1.contains 0 && t1.contains (-1)) = true) := by simpa [haz] using g3
+        rw [if_neg g3']
+        simp only [if_true, Option.bind_some]
+        simpa [hmid] using hinf
+      · -- a `0` in the completed result next to a `-1` in the target: excluded by the original's own guard
+        exfalso
+        rw [hu'] at h0
+        obtain ⟨a, ha, hsa⟩ := List.mem_map.mp h0
+        have ha0 : a = 0 := by
+          unfold sub1 at hsa
+          split at hsa
+          · omega
+          · exact hsa
+        subst ha0
+        apply g3
+        simp only [haz, contains_of_mem ha, contains_of_mem hm]
+        decide
+    · have hc0 : u.contains 0 = false := by
+        cases hc : u.contains 0
+        · rfl
+        · exact (h0 (mem_of_contains hc)).elim
+      have hz0 : (u.filter (· == 0)).length = 0 := cntZero_zero_iff.mpr h0
+      simp only [hc0, Bool.and_false, Bool.false_and, Bool.false_eq_true, if_false, hz0,
+        show ¬ (0 > 1) from by omega] at h
+      simp only [Raised.ret.injEq, Option.some.injEq, Prod.mk.injEq] at h
+      obtain ⟨e1, e2⟩ := h
+      subst e1 e2
+      have : u.map (fun d => if d = 0 then -1 else d) = u := map_zeroToNeg_of_not_mem h0
+      rw [this]
+      exact rr_nozero hpw g1' g2' h0 hres hcase
+  · -- allowzero = 0: zeros copy the dims of the intermediate tensor
+    have hb : (az == 1) = false := by simpa using haz
+    rw [hb] at ht1
+    simp only [Bool.false_eq_true, if_false] at ht1
+    have hE := resolveZeros_pw mid hnn t t1 0 ht1
+    obtain ⟨c1, c2⟩ := pw_resolve_guards hE
+    have hpw : PW2 (QZ v) t1 u := PW2.mono (fun a b hh => by
+      rcases hh with hh | ⟨x, hx, hb⟩
+      · exact Or.inl hh
+      · rcases hx with ⟨hx, _⟩ | hx
+        · exact Or.inr (Or.inr (hb.trans hx))
+        · exact Or.inr (Or.inl (hb.trans hx))) (key _ hE u hu)
+    have haz' : decide (az = 1) = false := by simpa using haz
+    simp only [haz', Bool.false_and, Bool.false_eq_true, if_false] at h
+    split at h
+    · cases h
+    rename_i hneg
+    split at h
+    · cases h
+    rename_i hcz
+    simp only [Raised.ret.injEq, Option.some.injEq, Prod.mk.injEq] at h
+    obtain ⟨e1, e2⟩ := h
+    subst e1 e2
+    by_cases h0 : (0 : Int) ∈ u
+    · have hc0 : u.contains 0 = true := contains_of_mem h0
+      have hn : ∀ d ∈ u, 0 ≤ d := by
+        intro d hd
+        apply Classical.byContradiction
+        intro hlt
+        apply hneg
+        simp only [hc0, Bool.true_and, List.any_eq_true, decide_eq_true_eq]
+        exact ⟨d, hd, by omega⟩
+      have hz1 : cntZero u = 1 := by
+        have : cntZero u ≠ 0 := fun e => (cntZero_zero_iff.mp e) h0
+        unfold cntZero at this ⊢
+        omega
+      have hprod : prodInt res = prodInt inp := hres ▸ prod_resolved (c1 ▸ g1') hcase
+      exact rr_onezero hpw hn hz1 hres hprod
+    · have : u.map (fun d => if d = 0 then -1 else d) = u := map_zeroToNeg_of_not_mem h0
+      rw [this]
+      exact rr_nozero (pw_qz_to_qk v hpw h0) (c1 ▸ g1') (c2 ▸ g2') h0 hres hcase
+
+/-- **End to end**: the inner Reshape stated by the operator rule as well.  For every input shape `inp` (dims ≥ 0), every
+inner target `s₀`/`allowzero` the inner Reshape accepts, every constant outer target, every truthful annotation and
+binding: if `Reshape(Reshape(x, s₀), shape)` accepts the input and the rule fires, `Reshape(x, new_shape)` accepts it
+and returns a tensor of the same shape (Reshape never moves data, so the same tensor). -/
+theorem reshape_reshape_end_to_end (inp s₀ mid t tgt : List Int) (az₀ : Bool) (az : Int) (az' : Bool) (out : Option Shape)
+    (h : reshapeReshape (some t) out az = .ret (some (tgt, az')))
+    (σ : String → Nat) (res : List Int) (hinp : ∀ d ∈ inp, 0 ≤ d)
+    (h₀ : reshapeTarget inp s₀ az₀ = some mid)
+    (ho : reshapeTarget mid t (az == 1) = some res)
+    (hout : ∀ o, out = some o → Admits σ o res) :
+    reshapeTarget inp tgt az' = some res := by
+  obtain ⟨hp, hn⟩ := reshapeTarget_out hinp h₀
+  exact reshape_reshape_sound inp mid t tgt az az' out h σ res hn hp ho hout
+
+/-- The converse does not hold and is not claimed: the rewritten model may accept an input the original rejects
+(`Reshape(Reshape(x:[2,3,5], [0,0,0]), [0,5])` is invalid — `[2,5]` has 10 elements — while `Reshape(x, [-1,5])` gives
+`[6,5]`); the property quantifies over the inputs the original accepts. -/
+theorem reshape_reshape_accepts_more :
+    reshapeTarget [2, 3, 5] [0, 5] false = none ∧
+    reshapeReshape (some [0, 5]) none 0 = .ret (some ([-1, 5], false)) ∧
+    reshapeTarget [2, 3, 5] [-1, 5] false = some [6, 5] := by decide
+
+example : reshapeTarget [0, 4] [-1] false = some [0] ∧ reshapeTarget [0] [0, 1] false = some [0, 1] ∧
+    reshapeReshape (some [0, 1]) none 0 = .ret (some ([-1, 1], false)) ∧ reshapeTarget [0, 4] [-1, 1] false = some [0, 1] := by
+  decide
+
+-- non-vacuity: a `0` (copy) next to an annotated dim; allowzero = 1 with a real zero; `-1` kept
+example : reshapeReshape (some [0, -1]) (some [.sym "N", .known 7]) 0 = .ret (some ([-1, 7], false)) := by decide
+example : reshapeTarget [3, 7] [0, -1] false = some [3, 7] ∧ reshapeTarget [21] [-1, 7] false = some [3, 7] := by decide
+example : reshapeReshape (some [0, 5]) none 1 = .ret (some ([0, 5], true)) := by decide
+example : reshapeReshape (some [0, -1]) none 0 = .ret none := by decide
+example : reshapeReshape (some [3, -1]) (some [.known 3, .sym "a", .known 5]) 0 = .raised := by decide
 
 end OV.Props.C09
